@@ -200,19 +200,31 @@ class C13(Prop):
             "case-folded / retyped / unknown member, bad element, bad string) at EVERY node of conformant trees (depth 0-6), null at "
             "each typed key, code_<n> strings, random tree-level malformations, byte-level mutations and fuzz, the tree coming from "
             "the real json.Decoder; c13.wire: examineWireDetails over content types x status x bodies x trailers; c13.nocrash: "
-            "arbitrary bytes (up to 200) through every examiner; a panic inside an oracle stage becomes a failing case. "
+            "arbitrary bytes (up to 200) through every examiner; a panic inside an oracle stage becomes a failing case; c13.invoke: the REAL "
+            "invoke() (transport set-up, wire-capture transport, TracingRoundTripper + dataTracer, connect-go, the call sites doUnary / "
+            "serverStream / clientStream / bidiStream, invoker.examineWireDetails) against a scripted HTTP/1.1 + h2c server that writes "
+            "exactly the status, headers, body (raw or enveloped) and HTTP trailers of the case: every error code 1..16 (0 for gRPC) x "
+            "{Connect unary error body, gRPC trailers-only, gRPC message + HTTP trailers, gRPC-Web trailers-only / trailer block, Connect "
+            "end-of-stream message} x {well-formed, catalogue malformations} x methods x {HTTP/1.1, h2c}, pool samples of the other kinds' "
+            "texts, real renderings of the reference server, end-stream messages of 64 KiB - 1, 64 KiB, 64 KiB + 1, 100 KiB, 1 MiB and ~90 KiB "
+            "of metadata rendered by the reference server itself, outside reference mode; compared: http_status_code, feedback classes of "
+            "the ClientResponseResult (from the rendered text) and, where the case names it, the error code the client reported. "
             "non-trivial = result carries a feedback class or data; per-class occurrence counts are in the evidence (class_counts, each >= 50)")
     trusted_base = ("Coq 8.16.1 kernel (vm_compute used, native_compute not)", "extraction (ExtrOcamlBasic only) + ocaml/driver.ml",
                     "vlib generators/comparator, Go overlay harness files (incl. the format-string -> class table)",
                     "modelled as oracles, not verified: encoding/json (syntax, token stream, typed Unmarshal views of one tree, "
                     "RawMessage re-parse = subtree), proto.Marshal / proto.Unmarshal of google.rpc.Status, net/http Header.Add; "
                     "projected away: the debug-vs-value comparison of error details (protojson + registry), strings.ToLower on "
-                    "non-ASCII trailer keys, tracer/decompressor plumbing of examineWireDetails (identity encoding only)")
+                    "non-ASCII trailer keys; in c13.invoke: checkBinaryMetadata on the metadata connect-go decoded (c13.binmeta covers the function), "
+                    "det-b64 / det-padded (their rendered text equals checkBinaryMetadata's: kept out of that kind, covered by c13.status / "
+                    "c13.wire); compression of the end-stream message and truncated bodies (C14's subject: identity encoding and complete "
+                    "envelopes here); connect-go's reading of a response (it reads a stream to its end-stream message; cases keep to "
+                    "responses it reads completely); net/http and x/net/http2 as carriers of the scripted response")
     assumptions = ("header / trailer names handed to checkBinaryMetadata and to the encoders are ASCII (strings.ToLower is Unicode-aware)",
                    "proto.Unmarshal(proto.Marshal(s)) = s for google.rpc.Status (hypothesis of the acceptance theorems; sampled on every run)",
                    "encoding/json: Unmarshal into the typed structs, the Decoder token walk and Unmarshal into map[string]any are views of "
                    "one value tree; a RawMessage re-parses to its subtree (sampled on every run)")
-    level_text = ("Machine-checked proof (Coq, 49 theorems) that, for the model of wire_details.go and of the reference server's encoders, "
+    level_text = ("Machine-checked proof (Coq, 60 theorems) that, for the model of wire_details.go and of the reference server's encoders, "
                   "(1) every error (16 codes x all message bytes x all detail lists x all well-formed trailer / metadata lists) rendered by "
                   "grpcStatusTrailers / grpcWebStatusEndStream (gRPC, gRPC-Web) and by the reference server's Connect path (unary error body, "
                   "end-of-stream message with or without error) is examined without feedback; (2) the Connect JSON examiners are silent on a "
@@ -221,8 +233,14 @@ class C13(Prop):
                   "'should end with CRLF' exactly on blocks not ending in LF; (3) every malformation class the checks name yields feedback of "
                   "that class for ALL inputs having it (status trio, base64, agreement, line endings, blank lines, obs-fold / leading white "
                   "space, missing colon, field names / values, upper-case keys, HTTP trailers outside gRPC, code / keys / duplicates); "
-                  "(4) no examiner or encoder can crash. The model is tied to the Go code by a differential run on every check (structured "
-                  "inputs through the real encoders and the real reference-server handlers, exhaustive single malformations, fuzz).")
+                  "(4) no examiner or encoder can crash; (5) the glue from the wire to the feedback field: the end-stream content the examiners read "
+                  "off the trace is the WHOLE payload of the first end-stream envelope with content, for every length; every call site of the "
+                  "reference client answers with the examination of the call's response whatever error code the RPC ended with (no error, any "
+                  "of the 16 codes), so the acceptance theorems (Connect end-of-stream message, gRPC-Web trailer block of the reference server, "
+                  "any length) and rejection theorems (unknown key in a unary Connect error, ill-encoded grpc-message of a trailers-only gRPC "
+                  "response) hold of the feedback field of the ClientResponseResult. The model is tied to the Go code by a differential run on "
+                  "every check (structured inputs through the real encoders and the real reference-server handlers, exhaustive single "
+                  "malformations, fuzz, and the real invoke() against a scripted server for the glue).")
     level_note = ("Trusted: Coq kernel, extraction, OCaml driver, harness and its message classifier; the model/Go correspondence is sampled, "
                   "not proved. encoding/json, base64-in-Go vs the modelled base64, proto (un)marshal are oracles whose answers the Go side "
                   "re-validates on each evaluation; connect-go's JSON marshalling of an error / end-of-stream message is modelled (wire_error / "
@@ -230,11 +248,14 @@ class C13(Prop):
                   "(what a proto3 string can carry to the server). The debug-data comparison of error details (protojson + registry) is "
                   "outside the model: debug trees are data of the case; the Go side must stay silent about them on real renderings. "
                   "The Connect rejection theorems below the top level state 'some feedback' (not which class): the first problem in document "
-                  "order wins in the code, so the class is not determined by the malformation alone. Nothing is named _partial.")
+                  "order wins in the code, so the class is not determined by the malformation alone. The glue model (C13_Call) takes a response "
+                  "body as a list of complete identity-encoded envelopes (the byte-level dataTracer, compression and truncation are C14's model) "
+                  "and states the call sites as they are coded (examination unconditional once the stream is set up); that connect-go reads the "
+                  "response to its end is trusted and exercised by c13.invoke. Nothing is named _partial.")
     _crashed = ()
     _gen_counts = {}
     _generated = False
-    technique = "Coq proof (induction over messages / trailer lists / JSON trees; byte-class facts by 256-sweeps) + differential model-vs-Go correspondence with library oracles"
+    technique = "Coq proof (induction over messages / trailer lists / JSON trees / envelope lists; byte-class facts by 256-sweeps) + differential model-vs-Go correspondence with library oracles, incl. the real client invocation path against a scripted server"
 
     # feedback classes that a `flags_*` theorem names (or that the iff characterisations cover) and that can occur
     CLASSES = ["eos-nocolon", "eos-name", "eos-upper", "eos-value", "eos-obsfold", "eos-blank-end", "eos-blank", "eos-lf", "eos-nocrlf",
@@ -279,6 +300,8 @@ class C13(Prop):
     def nontrivial(self, case, res):
         if case[0] in ("c13.classes", "c13.nocrash"):
             return True
+        if case[0] == "c13.invoke":
+            return not res.startswith("(-1")      # the response was examined (silently or not)
         return "#" in res
 
     def describe(self, case, g, m):
